@@ -1223,6 +1223,29 @@ fn lclass(n: usize) -> &'static str {
     }
 }
 
+/// e2e post-processing shared by gen and replay: `kf:` tags are a function of the case line;
+/// a clean `Err` from the writer means the input is outside the property's domain ("batches the
+/// writer accepts"): the case is counted under `refused:write` and answered with the expected dump
+/// so that it is not a disagreement (a panic in the writer stays one).
+fn post_e2e(line: &str, answer: String, tags: &str) -> (String, String) {
+    let t: Vec<&str> = line.split(' ').collect();
+    if t.len() < 2 || t[1] != "e2e" {
+        return (answer, tags.to_string());
+    }
+    let mut tags = tags.to_string();
+    for k in e2e::kf_tags(&t) {
+        if !tags.split(' ').any(|x| x == k) {
+            tags.push(' ');
+            tags.push_str(&k);
+        }
+    }
+    if answer == "ERR:write" && t.len() == 7 {
+        tags.push_str(" refused:write");
+        return (format!("{} {}", t[5], t[6]), tags);
+    }
+    (answer, tags)
+}
+
 fn main() {
     let args = parse_args();
     if std::env::var("VERIF_LOUD").is_err() {
@@ -1235,7 +1258,8 @@ fn main() {
             if let Some(what) = o {
                 sink.oracle_failure(line.clone(), what, "replay");
             }
-            sink.case(line, a, "replay");
+            let (a, tags) = post_e2e(&line, a, "replay");
+            sink.case(line, a, &tags);
         }
     } else {
         let thorough = args.tier == "thorough";
@@ -1257,6 +1281,7 @@ fn main() {
             if let Some(what) = o {
                 sink.oracle_failure(line.clone(), what, &tags);
             }
+            let (a, tags) = post_e2e(&line, a, &tags);
             sink.case(line, a, &tags);
         }
     }
